@@ -225,7 +225,7 @@ def discharge(repo: Repo, rel: str, q: str, fn: ast.FunctionDef, s: Site, sub: C
             if q == 'BinaryData.insert_wflip_ops' and recv == 'flip_addresses' and gd.get('0 == flip_value') is False \
                     and ctx['flip_value_range_checked']:
                 return 'GUARD: flip_value != 0 and 0 <= flip_value < 2^w, so at least one bit below w is set'
-        if d.split('.')[-1] == 'pack' and q == 'Writer.write_to_file':
+        if d.split('.')[-1] == 'pack' and q.startswith('Writer.'):           # write_to_file or a packing helper of the Writer
             if {'V9', 'V10'} <= ctx['writer_validated'] and ctx['writer_flags_validated']:
                 return 'GUARD: words, segment fields and flags are range-validated by add_data/add_segment/__init__'
         return None
@@ -294,13 +294,27 @@ def context(repo: Repo) -> Dict[str, Any]:
                         calls_ok = False
     ctx['macro_lookup_guarded'] = guarded and noreturn and calls_ok
     gp = repo.func(PRE, 'get_pad_ops_alignment')
-    ctx['pad_alignment_guarded'] = any(isinstance(n, ast.If) and cn(n.test) in (cc('ops_alignment <= 0'), cc('ops_alignment < 1')) and
-                                       any(isinstance(c, ast.Call) and dotted(c.func) == 'macro_resolve_error' for c in ast.walk(n))
-                                       for n in ast.walk(gp)) and noreturn and all(
+    # every value the helper returns is known positive at its return (enclosing / preceding tests, tests ending in the NoReturn helper)
+    gp_rets = [r for r in walk_no_nested(gp) if isinstance(r, ast.Return) and r.value is not None]
+    gp_known = bool(gp_rets) and all(GuardFacts(dominating_guards(r)).get(f'{norm(r.value)} > 0') is True or
+                                     GuardFacts(dominating_guards(r)).get(f'{norm(r.value)} >= 1') is True for r in gp_rets)
+    ctx['pad_alignment_guarded'] = gp_known and noreturn and all(
         norm(c.args[0]) == 'ops_alignment' for q, fn in all_functions(repo, PRE) for c in calls(fn)
         if dotted(c.func).endswith('align_current_address'))
     pinit = repo.func(PRE, 'PreprocessorData.__init__')
-    ctx['first_segment_enqueued'] = any(isinstance(c, ast.Call) and norm(c) == 'self.result_ops.append(first_segment)' for c in ast.walk(pinit))
+    # the result queue is non-empty after construction: an unconditional append, or created from a non-empty literal
+    enq = any(isinstance(st, ast.Expr) and isinstance(st.value, ast.Call) and norm(st.value.func) == 'self.result_ops.append' and st.value.args
+              for st in pinit.body)
+    for st in pinit.body:
+        if isinstance(st, (ast.Assign, ast.AnnAssign)) and st.value is not None and \
+                norm(st.targets[0] if isinstance(st, ast.Assign) else st.target) == 'self.result_ops':
+            v = st.value
+            if isinstance(v, ast.Call) and dotted(v.func).split('.')[-1] in ('deque', 'list') and v.args and \
+                    isinstance(v.args[0], (ast.List, ast.Tuple)) and v.args[0].elts:
+                enq = True
+            elif isinstance(v, (ast.List,)) and v.elts:
+                enq = True
+    ctx['first_segment_enqueued'] = enq
     from ..names import fixed_text_of_fstring, identifier_alphabet, label_table_writers
     alpha = identifier_alphabet(repo)
     fresh = True
@@ -445,13 +459,15 @@ def rule_raises(rep: Report, repo: Repo, clo: List[Tuple[str, str, ast.FunctionD
 def rule_write_last(rep: Report, repo: Repo) -> None:
     rep.rule('C14.WRITE-LAST', 'the output file is opened only after every fallible computation on user data (packing, '
              'compression) has finished; writing is the last stage of assemble(); the label file is written after it', 3)
-    wf = repo.func(WRITER, 'Writer.write_to_file')
+    from ..pyfacts import expand_private_calls
+    wf = expand_private_calls(repo, WRITER, repo.func(WRITER, 'Writer.write_to_file'), 'Writer', depth=2, keep=['_compress_data'])
     opens = [n for n in ast.walk(wf) if isinstance(n, ast.With) and any(isinstance(c, ast.Call) and dotted(c.func) == 'open' for i in n.items for c in ast.walk(i.context_expr))]
     if len(opens) != 1:
         raise AnalysisError('Writer.write_to_file: expected exactly one `with open(...)`')
     inside = [dotted(c.func) for st in opens[0].body for c in ast.walk(st) if isinstance(c, ast.Call)]
     fallible_inside = [d for d in inside if d in ('pack', 'struct.pack', 'self._compress_data', 'lzma.compress')]
-    later = [dotted(c.func) for st in wf.body if st.lineno > opens[0].lineno and st is not opens[0] for c in ast.walk(st) if isinstance(c, ast.Call)]
+    after_open = wf.body[wf.body.index(opens[0]) + 1:] if opens[0] in wf.body else []
+    later = [dotted(c.func) for st in after_open for c in ast.walk(st) if isinstance(c, ast.Call)]
     rep.check(not fallible_inside and not later, 'C14.WRITE-LAST', 'Writer.write_to_file:open-after-pack',
               f'inside the open block: {sorted(set(inside))}; fallible there: {fallible_inside}', f'{WRITER}:{opens[0].lineno}',
               expected='only f.write(...) of prepared bytes inside the open block')
